@@ -620,6 +620,8 @@ impl BoxClient {
                     )
                 }
             }
+            BVal::DefaultSlice => mk!(Slice, BBox::<[T0]>::default(), Box::<[T1]>::default()),
+            BVal::DefaultStr => mk!(Str, BBox::<str>::default(), Box::<str>::default()),
             BVal::AnyU32(x) => mk!(
                 Any,
                 unsafe { BBox::from_raw(BBox::into_raw(BBox::new_in(*x as u64, bump)) as *mut dyn Any) },
